@@ -971,14 +971,21 @@ fn f64_to_exponential(n: f64) -> JsString {
 }
 
 /// Helper function that formats a float as a ES6-style exponential number string with a given precision.
-// We can't use the same approach as in `f64_to_exponential`
-// because in cases like (0.999).toExponential(0) the result will be 1e0.
-// Instead we get the index of 'e', and if the next character is not '-' we insert the plus sign
+// We can't use the `{:.prec$e}` format because it rounds ties to even, and in cases like
+// (2.5).toExponential(0) the specification picks the larger candidate, 3e+0.
+// Instead we round the exact digits of the number half up.
 fn f64_to_exponential_with_precision(n: f64, prec: usize) -> JsString {
-    let mut res = format!("{n:.prec$e}");
-    let idx = res.find('e').expect("'e' not found in exponential string");
-    if res.as_bytes()[idx + 1] != b'-' {
-        res.insert(idx + 1, '+');
+    let (mut digits, mut exponent) = if n == 0.0 {
+        (String::new(), 0)
+    } else {
+        f64_exact_digits(n.abs())
+    };
+    if Number::round_to_precision(&mut digits, prec + 1) {
+        exponent += 1;
     }
-    js_string!(res)
+    if prec > 0 {
+        digits.insert(1, '.');
+    }
+    let sign = if n < 0.0 { "-" } else { "" };
+    js_string!(format!("{sign}{digits}e{exponent:+}"))
 }
